@@ -327,6 +327,7 @@ func c18(c *core.Check) {
 	c18ArcCenter(c)
 	c18Shapes(c)
 	c18Groups(c)
+	c18ViewBox(c)
 	r3 := c.Rule("R3", "no call passes two same-typed arguments under each other's parameter names (swapped arguments): every pair of arguments named after the callee's parameters is aligned with them", 60)
 	argNameRule(c, r3, "svg", nil, 90)
 }
